@@ -213,4 +213,47 @@ example : (setItem 40 exTree ['/', '/', 'a', '[', '0', ']', '/', 'b', '[', '1', 
       = .dict .n0 [(['a'], .dict .plain [(['b'], .list .plain [.int 7, .list .n0 [.str ['x'], .none]])]), (['k'], .bool true)] := by
   decide
 
+/-- **C02 (hidden list, the index as a step of its own in the middle).**  `d['//…P…/[0]/k2/…p2…'] = v` where the node at
+the plain position `P` (under a key or an element of a list) is not a list: exactly the node at `P/k2/p2` is replaced. -/
+theorem C02_set_hidden_middle_own (cls : Cls) (kvs : List (Str × Val)) (P : Pos) (old : Val) (e : IdxSp) (k2 : Str)
+    (p2 : Pos) (c v : Val) (fuel : Nat)
+    (hp : PlainPos P) (hP : getAt (.dict cls kvs) P = some old) (hs : isList old = false)
+    (he : e.val = 0 ∨ e.val = -1) (hp2 : PlainPos (Seg.key k2 :: p2)) (hc : getAt old (Seg.key k2 :: p2) = some c)
+    (hf : fuel ≥ 2 * P.length + 2 * p2.length + 4) :
+    ∃ t', setAt (.dict cls kvs) (P ++ Seg.key k2 :: p2) v = some t' ∧
+      setItem fuel (.dict cls kvs) (slash ++ renderPos P ++ slash ++ bracket e.text ++ renderPos (Seg.key k2 :: p2)) v
+        = (t', .ok ()) := by
+  have hP' : getAt (.dict cls kvs) (P ++ Seg.key k2 :: p2) = some c := by rw [getAt_append, hP]; exact hc
+  obtain ⟨t', ht'⟩ := setAt_isSome _ _ c v hP'
+  exact ⟨t', ht', setItem_hidden_middle_own cls kvs P old e k2 p2 c v t' fuel hp hP hs he hp2 hc ht' hf⟩
+
+/-- **C02 (hidden list, on a list element in the middle).**  `d['//…q0…[i][0]/k2/…p2…'] = v` where element `i` of the list
+at `q0` is not a list (a dict): exactly the node at `q0[i]/k2/p2` is replaced. -/
+theorem C02_set_hidden_middle_elem (cls : Cls) (kvs : List (Str × Val)) (q0 : Pos) (i : Nat) (old : Val) (e : IdxSp)
+    (k2 : Str) (p2 : Pos) (c v : Val) (fuel : Nat)
+    (hp : PlainPos (q0 ++ [Seg.idx i])) (hP : getAt (.dict cls kvs) (q0 ++ [Seg.idx i]) = some old)
+    (hs : isList old = false) (he : e.val = 0 ∨ e.val = -1) (hp2 : PlainPos (Seg.key k2 :: p2))
+    (hc : getAt old (Seg.key k2 :: p2) = some c) (hf : fuel ≥ 2 * (q0.length + 1) + 2 * p2.length + 4) :
+    ∃ t', setAt (.dict cls kvs) (q0 ++ [Seg.idx i] ++ Seg.key k2 :: p2) v = some t' ∧
+      setItem fuel (.dict cls kvs)
+        (slash ++ renderPos (q0 ++ [Seg.idx i]) ++ bracket e.text ++ renderPos (Seg.key k2 :: p2)) v = (t', .ok ()) := by
+  have hP' : getAt (.dict cls kvs) (q0 ++ [Seg.idx i] ++ Seg.key k2 :: p2) = some c := by rw [getAt_append, hP]; exact hc
+  obtain ⟨t', ht'⟩ := setAt_isSome _ _ c v hP'
+  exact ⟨t', ht', setItem_hidden_middle_elem cls kvs q0 i old e k2 p2 c v t' fuel hp hP hs he hp2 hc ht' hf⟩
+
+/-- `{h: [1, {p: 5}]}` -/
+def exTree2 : Val := .dict .n0 [(['h'], .list .n0 [.int 1, .dict .n0 [(['p'], .int 5)]])]
+/-- `d['//a/[-1]/b[1]'] = 7` on `exTree` -/
+example : ∃ t', setAt exTree [.key ['a'], .key ['b'], .idx 1] (.int 7) = some t' ∧
+    setItem 40 exTree ['/', '/', 'a', '/', '[', '-', '1', ']', '/', 'b', '[', '1', ']'] (.int 7) = (t', .ok ()) :=
+  C02_set_hidden_middle_own .n0 _ [.key ['a']] _ (.neg 1) ['b'] [.idx 1] (.list .n0 [.str ['x'], .none]) (.int 7) 40
+    ⟨⟨by simp, by decide, by simp⟩, trivial⟩ rfl rfl (Or.inr rfl) ⟨⟨by simp, by decide, by simp⟩, trivial⟩ rfl (by decide)
+/-- `d['//h[1][0]/p'] = 7` on `{h: [1, {p: 5}]}` -/
+example : ∃ t', setAt exTree2 [.key ['h'], .idx 1, .key ['p']] (.int 7) = some t' ∧
+    setItem 40 exTree2 ['/', '/', 'h', '[', '1', ']', '[', '0', ']', '/', 'p'] (.int 7) = (t', .ok ()) :=
+  C02_set_hidden_middle_elem .n0 _ [.key ['h']] 1 _ (.lit 0) ['p'] [] (.int 5) (.int 7) 40
+    ⟨⟨by simp, by decide, by simp⟩, trivial⟩ rfl rfl (Or.inl rfl) ⟨⟨by simp, by decide, by simp⟩, trivial⟩ rfl (by decide)
+example : (setItem 40 exTree2 ['/', '/', 'h', '[', '1', ']', '[', '0', ']', '/', 'p'] (.int 7)).1
+    = .dict .n0 [(['h'], .list .n0 [.int 1, .dict .n0 [(['p'], .int 7)]])] := by decide
+
 end N0.C02
